@@ -1098,7 +1098,7 @@ func TestVerifConcStress(t *testing.T) {
 								}
 							case "disposed", "provDisposed", "ctorErr":
 							case "notInit":
-								// ErrSingletonNotInitialized from a Get that overlaps provider.Close: see FINDINGS.md (F3)
+								report(round, "C09,C13", "a Get overlapping provider.Close returned ErrSingletonNotInitialized instead of the disposed error (F3, repaired by 0cb30f3)")
 							default:
 								report(round, "C09,C13", "Get returned an undocumented error: "+c)
 							}
@@ -1210,7 +1210,7 @@ func TestVerifConcStress(t *testing.T) {
 					}
 				}
 				cw.Wait()
-				// F2 evidence: closed scopes still referenced by the provider's table
+				// closed scopes must not be referenced by the provider's table (F2)
 				if p, ok := w.prov.(*provider); ok {
 					p.scopesMu.Lock()
 					stale := 0
@@ -1226,6 +1226,7 @@ func TestVerifConcStress(t *testing.T) {
 						smu.Lock()
 						stats["stale_closed_scopes_in_provider_table"] += stale
 						smu.Unlock()
+						report(round, "C09,C14,C13", fmt.Sprintf("%d closed scope(s) are still in the provider's scope table after their Close returned (F2, repaired by 64d7b34)", stale))
 					}
 				}
 				for k := 0; k < 2; k++ {
